@@ -41,3 +41,46 @@ fn qvec_check<const D: usize, const L: usize, const N: usize>() {
 #[kani::proof] #[kani::unwind(10)] fn qvec_d1_l3() { qvec_check::<1, 3, 6>() }
 #[kani::proof] #[kani::unwind(12)] fn qvec_d4_l2() { qvec_check::<4, 2, 10>() }
 #[kani::proof] #[kani::unwind(12)] fn qvec_d3_l3() { qvec_check::<3, 3, 12>() }
+
+/// C08 cross-check (bounded: E edges, L loops, 8-bit ring): L[i][j] == sum_e (s_ei * s_ej) * x_e, symmetric.
+/// Complements the Verus proof when an edit moves compute_l_matrix outside the Verus subset (e.g. `continue` in a for loop).
+fn lmat_check<const E: usize, const L: usize>() {
+    let x: [Zt; E] = core::array::from_fn(|_| anyz());
+    let rows: [[isize; L]; E] = core::array::from_fn(|_| core::array::from_fn(|_| { let v: i8 = kani::any(); kani::assume(v >= -1 && v <= 1); v as isize }));
+    let sig: Vec<Vec<isize>> = rows.iter().map(|r| r.to_vec()).collect();
+    let m = compute_l_matrix(&x[..], &sig);
+    assert!(m.get_dim() == L);
+    let mut i = 0;
+    while i < L {
+        let mut j = 0;
+        while j < L {
+            let mut want = Zt(0);
+            let mut e = 0;
+            while e < E {
+                want = want + Zt((rows[e][i] * rows[e][j]) as i8) * x[e];
+                e += 1;
+            }
+            assert!(m[(i, j)] == want);
+            assert!(m[(i, j)] == m[(j, i)]);
+            j += 1;
+        }
+        i += 1;
+    }
+    kani::cover!(true, "lmat_check reached its end");
+}
+#[kani::proof] #[kani::unwind(6)] fn lmat_e3_l2() { lmat_check::<3, 2>() }
+#[kani::proof] #[kani::unwind(6)] fn lmat_e2_l2() { lmat_check::<2, 2>() }
+#[kani::proof] #[kani::unwind(8)] fn lmat_e4_l3() { lmat_check::<4, 3>() }
+
+/// C13 cross-check (loop-free, all 8-bit inputs): box_muller(a, b) == (cos(2 pi b) r, sin(2 pi b) r), r = sqrt(-2 ln a), with the tagged maps of Z8
+#[kani::proof]
+fn bm_formula() {
+    let a = anyz();
+    let b = anyz();
+    let (c, s) = box_muller(&a, &b);
+    let r = (-Zt(2) * a.ln()).sqrt();
+    let th = Zt(2) * Zt(31) * b;
+    assert!(c == th.cos() * r);
+    assert!(s == th.sin() * r);
+    kani::cover!(true, "bm_formula reached its end");
+}
